@@ -1,12 +1,14 @@
 package props
 
 import (
-	"sync"
+	"bytes"
 	"context"
+	"crypto/sha256"
 	"errors"
 	"fmt"
 	"io"
 	"strings"
+	"sync"
 	"testing"
 
 	connect "github.com/bufbuild/connect-go"
@@ -63,8 +65,11 @@ type c14Case struct {
 	// cancellation (ctx.Err() = context.DeadlineExceeded), at the same program
 	// point; the server is not told any timeout, so nothing but the client's
 	// own context ends the call.
-	Expire bool  `json:"expire,omitempty"`
-	Prefix []int `json:"prefix,omitempty"` // schedule (replay)
+	Expire bool `json:"expire,omitempty"`
+	// BigResp: the handler's messages are 5000 bytes (more than the 4 KiB buffer
+	// net/http keeps between a handler and the connection, less than two of them).
+	BigResp bool  `json:"big_resp,omitempty"`
+	Prefix  []int `json:"prefix,omitempty"` // schedule (replay)
 }
 
 // expiringCtx is a context that ends, when expire is called, the way a
@@ -112,6 +117,9 @@ func (k c14Case) key() string {
 	}
 	if k.Expire {
 		sp += "/expire"
+	}
+	if k.BigResp {
+		sp += "/bigresp"
 	}
 	return fmt.Sprintf("%s/%s/%s%s/%s", k.Proto, k.ReqMode, k.Client, sp, k.Handler)
 }
@@ -365,8 +373,25 @@ func classifyErr(err error) string {
 	return fmt.Sprintf("err:%v", CodeOfErr(err))
 }
 
+// c14Noise: 5000 bytes no compressor shrinks (a SHA-256 chain), so that the
+// enveloped message stays between one and two response buffers on the wire
+// whatever the negotiated compression.
+var c14Noise = func() []byte {
+	var out []byte
+	h := sha256.Sum256([]byte("c14"))
+	for len(out) < 5000 {
+		out = append(out, h[:]...)
+		h = sha256.Sum256(h[:])
+	}
+	return out[:5000]
+}()
+
 func payloadIndex(b []byte, prefix byte) int {
 	if len(b) == 2 && b[0] == prefix {
+		return int(b[1])
+	}
+	// BigResp payloads: the two bytes followed by the 5000 bytes of c14Noise
+	if len(b) == 2+len(c14Noise) && b[0] == prefix && bytes.Equal(b[2:], c14Noise) {
 		return int(b[1])
 	}
 	return -1
@@ -395,6 +420,9 @@ func c14Body(k c14Case, s *bsched.Sched) any {
 			payload := []byte{'h', byte(j)}
 			if k.Limit {
 				payload = append(payload, "0123456789"...)
+			}
+			if k.BigResp {
+				payload = append(payload, c14Noise...)
 			}
 			_ = st.Send(&BV{Value: payload})
 		}
@@ -739,6 +767,13 @@ func c14Cases(thorough bool) []c14Case {
 			}
 		}
 	}
+	// programs that receive, against handlers whose messages exceed net/http's response buffer
+	for _, k := range append([]c14Case(nil), out...) {
+		if k.ReqMode == memhttp.ReqEager && strings.Contains(k.Client, "R") && !strings.Contains(k.Client, "X") && k.Handler.Send > 0 && len(k.Client) <= 4 && !k.RR && !k.Limit && !k.Split && k.Chunk == 0 && k.Bound == 1 {
+			k.BigResp = true
+			out = append(out, k)
+		}
+	}
 	// the short cancelling programs once more with X = expiry of the context instead of a cancellation
 	for _, k := range append([]c14Case(nil), out...) {
 		if k.ReqMode == memhttp.ReqEager && strings.Contains(k.Client, "X") && len(k.Client) <= 3 && !k.RR && !k.Limit && !k.Split && k.Chunk == 0 && k.Bound == 1 {
@@ -829,6 +864,7 @@ func TestC14(t *testing.T) {
 		schedRoundRobin = k.RR
 		x := runSched(t, k.Prefix, nil, 3000, func(s *bsched.Sched) any { return c14Body(k, s) })
 		fmt.Println("replay:", c14Judge(c, k, x, pred), schedLine(x))
+		fmt.Println("trace:", traceOf(x, 400))
 		return
 	}
 	thorough := ev.Thorough()
